@@ -288,6 +288,10 @@ class NonEmpty:
                 if s["d"][1] == "" and s["d"][0] not in A and s.get("rk") in ("use", "ref") and s["src"] and isinstance(s["src"][0], list) and s["src"][0][0] in A:
                     A.add(s["d"][0])
                     changed = True
+            for _, t in b.calls():
+                if t["d"][1] == "" and t["d"][0] not in A and re.search(r"Try>::branch$|Try::branch$", t.get("f") or t["tf"]) and t["args"] and isinstance(t["args"][0], list) and t["args"][0][0] in A:
+                    A.add(t["d"][0])
+                    changed = True
         for i, t in b.calls():
             if b.blocks[i]["cl"]:
                 continue
@@ -383,8 +387,16 @@ def classify(b, sym, site, NE, cg, syms, sig):
         if what == "Overflow(Sub)":
             s = "%s-%s" % (sig.r(args[0]), sig.r(args[1]))
             return (pr.le(args[1], args[0]), "minuend>=subtrahend guard", s)
-        s = sig.r(args[0])
-        return (pr.nonzero(args[0]), "divisor!=0", s)
+        # the operand recorded with the assert is the dividend; the divisor is what the asserted condition compares with 0
+        cond = unrd(sym.expr(t["cond"], i)) if isinstance(t.get("cond"), list) else None
+        div = None
+        if cond is not None and cond[0] == "bin" and cond[1] in ("Eq", "Ne"):
+            div = cond[2] if strip(cond[3]) == ("c", 0) else (cond[3] if strip(cond[2]) == ("c", 0) else None)
+        if div is None:
+            return (False, None, "%s/?" % sig.r(args[0]))
+        s = "%s/%s" % (sig.r(args[0]), sig.r(div))
+        pr = Prover(sym, i, [div])
+        return (pr.nonzero(div), "divisor!=0", s)
     if kind == "unwrap":
         x = args[0]
         s = sig.r(x)
@@ -551,7 +563,7 @@ def renderer_roots(cg):
     out = []
     for f, b in cg.bodies.items():
         if b.crate == "mech_syntax" and b.pub and "{closure" not in f and any("ParserErrorReport" in (b.locals[i] if i < len(b.locals) else "") for i in range(1, b.nargs + 1)):
-            if "formatter" not in f:
+            if "formatter" not in f and "serde" not in f and not DERIVE.search(f):
                 out.append(f)
     return sorted(out)
 
